@@ -28,51 +28,45 @@ var jumpClass = map[byte][]bool{}
 // tablesErr != "" : the two operand tables differ in a way this check does not understand.
 var tablesErr string
 
+// harnessV1 is the version-1 operand table as this check defines the (frozen) format: the current table
+// with the documented position operands 2 bytes wide. It does not depend on the tree's own opv1 table,
+// which is part of the code under test (the converter walks version-1 instructions with it).
+var harnessV1 [][]int
+
+// tableNote records where the tree's opv1 table differs from harnessV1 (evidence note; the consequences
+// are found by decoding and running programs).
+var tableNote string
+
 func init() {
-	if len(opv1.OpcodeOperands) != len(ugo.OpcodeOperands) {
-		tablesErr = fmt.Sprintf("opcode tables differ in length: v1 %d, v2 %d", len(opv1.OpcodeOperands), len(ugo.OpcodeOperands))
-		return
-	}
+	want := map[byte][]bool{ugo.OpJump: {true}, ugo.OpJumpFalsy: {true}, ugo.OpAndJump: {true}, ugo.OpOrJump: {true}, ugo.OpSetupTry: {true, true}}
+	harnessV1 = make([][]int, len(ugo.OpcodeOperands))
 	for op := range ugo.OpcodeOperands {
-		a, b := opv1.OpcodeOperands[op], ugo.OpcodeOperands[op]
-		if len(a) != len(b) {
-			tablesErr = fmt.Sprintf("opcode %d: operand count differs v1 %v v2 %v", op, a, b)
-			return
-		}
-		var tg []bool
-		differs := false
-		for i := range a {
-			switch {
-			case a[i] == b[i]:
-				tg = append(tg, false)
-			case a[i] == 2 && b[i] == 4:
-				tg = append(tg, true)
-				differs = true
-			default:
-				tablesErr = fmt.Sprintf("opcode %d: operand %d width v1 %d v2 %d", op, i, a[i], b[i])
+		b := ugo.OpcodeOperands[op]
+		a := append([]int{}, b...)
+		if tg, ok := want[byte(op)]; ok {
+			if len(tg) != len(b) {
+				tablesErr = fmt.Sprintf("opcode %s has %d operands in the current table, %d position operands expected", ugo.OpcodeNames[op], len(b), len(tg))
 				return
 			}
-		}
-		if differs {
+			for i := range tg {
+				if b[i] != 4 {
+					tablesErr = fmt.Sprintf("opcode %s operand %d is %d bytes wide in the current table, 4 expected", ugo.OpcodeNames[op], i, b[i])
+					return
+				}
+				a[i] = 2
+			}
 			jumpClass[byte(op)] = tg
 		}
+		harnessV1[op] = a
 	}
-	// the operands that differ must be exactly the documented position operands
-	want := map[byte]int{ugo.OpJump: 1, ugo.OpJumpFalsy: 1, ugo.OpAndJump: 1, ugo.OpOrJump: 1, ugo.OpSetupTry: 2}
-	if len(jumpClass) != len(want) {
-		tablesErr = fmt.Sprintf("unexpected set of opcodes whose layout differs between v1 and v2: %v", jumpClass)
-		return
-	}
-	for op, n := range want {
-		c := 0
-		for _, b := range jumpClass[op] {
-			if b {
-				c++
-			}
+	for op := range harnessV1 {
+		if op >= len(opv1.OpcodeOperands) {
+			tableNote = fmt.Sprintf("the tree's version-1 table has %d entries, %d expected", len(opv1.OpcodeOperands), len(harnessV1))
+			break
 		}
-		if c != n {
-			tablesErr = fmt.Sprintf("opcode %s: %d differing operands, expected %d", ugo.OpcodeNames[op], c, n)
-			return
+		if fmt.Sprint(opv1.OpcodeOperands[op]) != fmt.Sprint(harnessV1[op]) && !(len(opv1.OpcodeOperands[op]) == 0 && len(harnessV1[op]) == 0) {
+			tableNote = fmt.Sprintf("opcode %s: the tree's version-1 table says %v, the format is %v", ugo.OpcodeNames[op], opv1.OpcodeOperands[op], harnessV1[op])
+			break
 		}
 	}
 }
@@ -119,7 +113,7 @@ func decode(code []byte, tbl func(op byte) []int) ([]inst, error) {
 	return out, nil
 }
 
-func v1tbl(op byte) []int { return opv1.OpcodeOperands[op] }
+func v1tbl(op byte) []int { return harnessV1[op] }
 func v2tbl(op byte) []int { return ugo.OpcodeOperands[op] }
 
 func put(out []byte, v, w int) []byte {
